@@ -2,6 +2,7 @@
 import json
 import re
 import lib
+from lib import clist
 import c02
 import c03
 
@@ -132,7 +133,10 @@ def run(run):
     run.trusted = [
         "Coq 8.16.1 kernel; the attribute round trip used by tables and HTML elements is the theorem of Proofs/AttrsProofs.v",
         "axioms: none",
-        "to_wikitext's per-kind emitters and the parser are exercised (three parses per document), not modelled",
+        "model coq/Model/TableEmit.v (the table emitters of to_wikitext as tokens) tied to node_expand.py by comparing, inside "
+        "Coq, emit(tree) with the tokens of the real to_wikitext output on the trees of written tables; "
+        "Proofs/BlocksEmitProofs.blocks_of_forest tied the same way through the block lines of section/list pages",
+        "the other per-kind emitters and the parser are exercised (three parses per document), not modelled",
         "tree equivalence 'up to whitespace at block boundaries' is harness/c19.py:norm",
     ]
     run.prove()
@@ -159,6 +163,7 @@ def run(run):
         if not o["list_ok"]:
             run.property_failure("c19:list-argument", "node_to_wikitext(list of the root's children) differs from node_to_wikitext(root)", t)
     check_table_emit(run, rng, quick)
+    check_block_emit(run, texts[-(300 if quick else 3000):], outs[-(300 if quick else 3000):])
     from lib import cstr
     strings = ["".join(rng.choice(["[", "]", "[[", "]]", "a", " ", "|", "x"]) for _ in range(rng.randint(1, 8)))
                for _ in range(300 if quick else 2000)]
@@ -255,6 +260,56 @@ def check_table_emit(run, rng, quick):
         run.correspondence_break("Model.TableEmit.emit disagrees with to_wikitext on a table tree (or the tree is not of the "
                                  "shape the theorem covers)", docs[idx[b]], w1=outs[idx[b]]["w1"][:400])
     run.extra["table_trees_validated_against_impl"] = len(cases)
+
+
+def block_seq_of_text(w):
+    """the block lines of serialised page text, in the alphabet of Model/Blocks.v"""
+    out, hr = [], 0
+    for ln in w.split("\n"):
+        m = re.match(r"^(=+)\s*(.*?)\s*=+\s*$", ln)
+        hid = re.findall(r"\bH(\d+)\b", ln)
+        if m and hid:
+            out.append("BH %d %s" % (len(m.group(1)), hid[0]))
+            continue
+        if re.match(r"^----+\s*$", ln):
+            hr += 1
+            out.append("BHR %d" % hr)
+            continue
+        m = re.match(r"^([*#]+)", ln)
+        lid = re.findall(r"\bL(\d+)\b", ln)
+        if m:
+            out.append("BLI %s %s" % (c02.coq_marker(m.group(1)), lid[0] if lid else "0"))
+            continue
+        for pid in re.findall(r"\bP(\d+)\b", ln):
+            out.append("BT %s" % pid)
+    return out
+
+
+def check_block_emit(run, texts, outs):
+    """Proofs/BlocksEmitProofs.blocks_of_forest (a page tree written back block by block) against to_wikitext on the trees
+    of the section/list documents."""
+    cases, idx = [], []
+    for i, (t, o) in enumerate(zip(texts, outs)):
+        if "raised" in o:
+            continue
+        got = c02.abstract(o["t1"].get("c", []))
+        if not all(c02.well_shaped(x) for x in c02.collect_all_lists(got)):
+            continue
+        seq = block_seq_of_text(o["w1"])
+        cases.append("(%s, %s)" % (c02.coq_items(got, [0]), clist(seq, lambda x: x, "cblk")))
+        idx.append(i)
+    bad, errs = lib.coq_eval_failing(
+        "c19b", ["Model.Lists", "Model.Nest", "Model.Blocks", "Proofs.BlocksEmitProofs"], "list item * list cblk", cases,
+        "fun '(tree, seq) => cblks_eqb (blocks_of_forest tree) seq",
+        extra_defs="Definition cblk_eqb (a b : cblk) : bool := match a, b with BH l i, BH l' i' => Nat.eqb l l' && Nat.eqb i i' "
+                   "| BT i, BT i' => Nat.eqb i i' | BHR i, BHR i' => Nat.eqb i i' | BLI m i, BLI m' i' => Lists.marker_eqb m m' && Nat.eqb i i' "
+                   "| _, _ => false end.\nFixpoint cblks_eqb (a b : list cblk) : bool := match a, b with [], [] => true "
+                   "| x :: a', y :: b' => cblk_eqb x y && cblks_eqb a' b' | _, _ => false end.\n", chunk=300)
+    for e in errs:
+        run.correspondence_break("model evaluation failed (block emitter)", None, error=e)
+    for b in bad:
+        run.correspondence_break("blocks_of_forest disagrees with the block lines to_wikitext writes", texts[idx[b]], w1=outs[idx[b]]["w1"][:300])
+    run.extra["block_trees_validated_against_impl"] = len(cases)
 
 
 def replay(data):
